@@ -92,8 +92,8 @@ def nosecsFor (nm : NosecMap) (raw : Raw) (ctx : Ctx) : Option (List Str) :=
 
 inductive Event where
   | finding (f : Finding)
-  | nosec (id : Str)          -- withheld by a bare nosec (`metrics.note_nosec`)
-  | skipped (id : Str)        -- withheld by a nosec naming the test (`note_skipped_test`)
+  | nosec (f : Finding)       -- withheld by a bare nosec (`metrics.note_nosec`); `f` = what would have been reported
+  | skipped (f : Finding)     -- withheld by a nosec naming the test (`note_skipped_test`)
   | crash (test : Str)        -- `report_error`: internal error in a check
 deriving DecidableEq, Repr, Inhabited
 
@@ -106,11 +106,11 @@ def emit (nm : NosecMap) (ctx : Ctx) (raw : Raw) : M Event := do
   let col ← match raw.col with
     | some c => pure c
     | none => match ctx.col with | some c => pure c | none => throw Crash.keyError
+  let f : Finding := ⟨raw.id, raw.sev, raw.conf, line, ctx.linerange, col⟩
   match skip with
-  | some [] => pure (.nosec raw.id)
-  | some s => if s.contains raw.id then pure (.skipped raw.id)
-              else pure (.finding ⟨raw.id, raw.sev, raw.conf, line, ctx.linerange, col⟩)
-  | none => pure (.finding ⟨raw.id, raw.sev, raw.conf, line, ctx.linerange, col⟩)
+  | some [] => pure (.nosec f)
+  | some s => if s.contains raw.id then pure (.skipped f) else pure (.finding f)
+  | none => pure (.finding f)
 
 /-- `run_tests` for one check on one context. -/
 def runCheck (nm : NosecMap) (env : Env) (c : Check) : List Event :=
@@ -216,5 +216,8 @@ def findingsOf (es : List Event) : List Finding := es.filterMap fun | .finding f
 def nosecCount (es : List Event) : Nat := (es.filter fun | .nosec _ => true | _ => false).length
 def skippedCount (es : List Event) : Nat := (es.filter fun | .skipped _ => true | _ => false).length
 def crashesOf (es : List Event) : List Str := es.filterMap fun | .crash t => some t | _ => none
+/-- the findings withheld by nosec comments -/
+def withheldOf (es : List Event) : List Finding :=
+  es.filterMap fun | .nosec f => some f | .skipped f => some f | _ => none
 
 end Bandit
